@@ -184,6 +184,82 @@ def r25_5(ctx, rep):
     no_cross_call_state(ctx, rep, R, XML, "generate")
 
 
+@SPEC.rule(
+    "R25.6",
+    "the tables of words the generator matches prefixes and names against are what they look like: no element of a list/tuple/set "
+    "of names in xml/generator.py is spelled as two adjacent string literals (a lost comma joins \"continuous\" \"constant\" into one "
+    "word, and a constant is then exported without its variability)",
+)
+def r25_6(ctx, rep):
+    from ._literal import no_implicit_concat
+    no_implicit_concat(ctx, rep, "R25.6", XML, "variability prefixes, built-in names")
+
+
+MUTABLE_CTORS = ("dict", "list", "set", "OrderedDict", "defaultdict", "deque", "Counter", "WeakValueDictionary", "WeakKeyDictionary", "WeakSet", "lru_cache", "cache")
+
+
+def _module_containers(mod):
+    """module-level names bound to a mutable container (literal or constructor call)"""
+    out = set()
+    for st in mod.body:
+        if isinstance(st, (ast.Assign, ast.AnnAssign)) and st.value is not None:
+            mutable = isinstance(st.value, (ast.Dict, ast.List, ast.Set, ast.DictComp, ast.ListComp, ast.SetComp)) or (
+                isinstance(st.value, ast.Call) and (call_name(st.value) or "").split(".")[-1] in MUTABLE_CTORS)
+            if mutable:
+                for t in (st.targets if isinstance(st, ast.Assign) else [st.target]):
+                    if isinstance(t, ast.Name):
+                        out.add(t.id)
+    return out
+
+
+def module_state_free(ctx, rep, R, rel, what):
+    """no function or method of module `rel` writes to a module-level mutable container, and none is wrapped in a caching
+    decorator; reading a module-level list/dict that is never written (a constant table) is fine"""
+    mod = ctx.module(rel, R)
+    state = _module_containers(mod)
+    # class-level containers (shared by all instances): written through <Class>.<name>, self.<name> or cls.<name>
+    cls_state = set()
+    for c in ast.walk(mod):
+        if isinstance(c, ast.ClassDef):
+            cls_state |= _module_containers(c)
+    written, deco = {}, []
+    for fn in ast.walk(mod):
+        if not isinstance(fn, (ast.FunctionDef, ast.AsyncFunctionDef)):
+            continue
+        for d in fn.decorator_list:
+            if any(k in norm(d) for k in ("lru_cache", "functools.cache", "cached_property", "memoize")):
+                deco.append("%s (@%s)" % (fn.name, norm(d)[:30]))
+        for n in ast.walk(fn):
+            tgt = None
+            if isinstance(n, (ast.Assign, ast.AugAssign)):
+                for t in (n.targets if isinstance(n, ast.Assign) else [n.target]):
+                    if isinstance(t, ast.Subscript) and isinstance(t.value, ast.Name):
+                        tgt = t.value.id
+            elif isinstance(n, ast.Call) and isinstance(n.func, ast.Attribute) and isinstance(n.func.value, ast.Name) and n.func.attr in (
+                    "append", "extend", "add", "update", "setdefault", "insert", "pop", "clear", "remove", "discard", "popitem", "appendleft"):
+                tgt = n.func.value.id
+            elif isinstance(n, ast.Global):
+                for nm in n.names:
+                    written.setdefault(nm, set()).add(fn.name)
+            if tgt in state:
+                written.setdefault(tgt, set()).add(fn.name)
+            # the same through an attribute of the class / instance
+            atgt = None
+            if isinstance(n, (ast.Assign, ast.AugAssign)):
+                for t in (n.targets if isinstance(n, ast.Assign) else [n.target]):
+                    if isinstance(t, ast.Subscript) and isinstance(t.value, ast.Attribute):
+                        atgt = t.value.attr
+            elif isinstance(n, ast.Call) and isinstance(n.func, ast.Attribute) and isinstance(n.func.value, ast.Attribute) and n.func.attr in (
+                    "append", "extend", "add", "update", "setdefault", "insert", "pop", "clear", "remove", "discard", "popitem", "appendleft"):
+                atgt = n.func.value.attr
+            if atgt in cls_state:
+                written.setdefault("<class>." + atgt, set()).add(fn.name)
+    rep.ob(R, rel, "no state kept between calls in " + what, not written and not deco,
+           "module-level container(s) written by functions: %s; caching decorators: %s — a result remembered from an earlier request (keyed by a "
+           "class name, an id(), a reference tuple) is served for a later one although the tree, the enclosing scope or the lookup flags differ"
+           % ({k: sorted(v) for k, v in written.items()}, deco))
+
+
 def no_cross_call_state(ctx, rep, R, rel, fname):
     """`fname` of module `rel` neither reads nor writes a module-level container and is not wrapped in a caching decorator"""
     fn = ctx.func(rel, fname, R)
